@@ -170,6 +170,9 @@ def finish(report, engine, out_dir=None, print_=print):
             'new_helpers_inlined_for_analysis': [
                 {'helper': q, 'sites': n, 'kept_as_function': k}
                 for q, n, k in getattr(engine.prog, 'deextracted', [])],
+            'new_mixins_flattened_for_analysis': [
+                {'mixin': b, 'into': c, 'members': n}
+                for b, c, n in getattr(engine.prog, 'flattened', [])],
         },
         'assumptions': report.assumptions,
         'wall_s': round(time.time() - report.t0 + engine.build_s, 3),
